@@ -107,28 +107,49 @@ theorem eqS_assign_kept (args : List Expr) (hok : stmtOK args = true) :
     evalEs_discard call ρ k env _ σ (fun σ' => Res.ok (Ctl.next env) σ'),
     evalDiscard_map_getInner, evalDiscard_filter call ρ k env keeps args hdrop]
 
-/-- kept arguments that are all non-calls become ONE `local _ = …` -/
-theorem foldl_pushValue_noncalls (es : List Expr) (k : LocalKind) (ns : List TName) (vs : List Expr)
-    (h : ∀ e ∈ es, isCall (getInner e) = false) :
-    es.foldl (fun acc e => pushValue acc (getInner e)) [.localAssign k ns vs]
-      = [.localAssign k ns (vs ++ es.map getInner)] := by
-  induction es generalizing vs with
+/-- kept arguments that are all non-calls, none visible to a later one through `_`, become ONE `local _ = …` -/
+theorem foldl_pushValue_noncalls (ps : List (Expr × Bool)) (k : LocalKind) (ns : List TName) (vs : List Expr)
+    (h : ∀ p ∈ ps, isCall (getInner p.1) = false ∧ p.2 = false) :
+    ps.foldl (fun acc p => pushValue acc (getInner p.1) p.2) [.localAssign k ns vs]
+      = [.localAssign k ns (vs ++ ps.map fun p => getInner p.1)] := by
+  induction ps generalizing vs with
   | nil => simp
-  | cons e rest ih =>
-    have he : isCall (getInner e) = false := h e List.mem_cons_self
-    have hp : pushValue [.localAssign k ns vs] (getInner e) = [.localAssign k ns (vs ++ [getInner e])] := by
-      simp [pushValue, he]
+  | cons p rest ih =>
+    obtain ⟨he, hl⟩ := h p List.mem_cons_self
+    have hp : pushValue [.localAssign k ns vs] (getInner p.1) p.2 = [.localAssign k ns (vs ++ [getInner p.1])] := by
+      simp [pushValue, he, hl]
     rw [List.foldl_cons, hp, ih _ (fun x hx => h x (List.mem_cons_of_mem _ hx))]
     simp
 
-theorem asStatements_noncalls (e : Expr) (es : List Expr) (h : ∀ x ∈ e :: es, isCall (getInner x) = false) :
+theorem flags_false (es : List Expr) (h : ∀ e ∈ es, usesDiscard e = false) :
+    ∀ p ∈ es.zip (usedLaterFlags es), p.2 = false := by
+  induction es with
+  | nil => intro p hp; simp at hp
+  | cons e rest ih =>
+    intro p hp
+    simp only [usedLaterFlags, List.zip_cons_cons, List.mem_cons] at hp
+    rcases hp with rfl | hp
+    · simp only [List.any_eq_false]
+      intro x hx
+      simp [h x (List.mem_cons_of_mem _ hx)]
+    · exact ih (fun x hx => h x (List.mem_cons_of_mem _ hx)) p hp
+
+theorem asStatements_noncalls (e : Expr) (es : List Expr)
+    (h : ∀ x ∈ e :: es, isCall (getInner x) = false ∧ usesDiscard x = false) :
     asStatements (e :: es) = [.localAssign .loc [.mk "_" none] ((e :: es).map getInner)] := by
-  have he : isCall (getInner e) = false := h e List.mem_cons_self
-  have hp : pushValue [] (getInner e) = [.localAssign .loc [.mk "_" none] [getInner e]] := by
-    simp [pushValue, he]
-  simp only [asStatements, List.foldl_cons, hp]
-  rw [foldl_pushValue_noncalls es _ _ _ (fun x hx => h x (List.mem_cons_of_mem _ hx))]
-  simp
+  have hfl := flags_false (e :: es) (fun x hx => (h x hx).2)
+  have hall : ∀ p ∈ (e :: es).zip (usedLaterFlags (e :: es)), isCall (getInner p.1) = false ∧ p.2 = false :=
+    fun p hp => ⟨(h p.1 (List.of_mem_zip hp).1).1, hfl p hp⟩
+  simp only [usedLaterFlags, List.zip_cons_cons] at hall
+  have h0 := hall _ List.mem_cons_self
+  have hp : pushValue [] (getInner e) (es.any usesDiscard) = [.localAssign .loc [.mk "_" none] [getInner e]] := by
+    simp only [] at h0
+    simp [pushValue, h0.1, h0.2]
+  simp only [asStatements, usedLaterFlags, List.zip_cons_cons, List.foldl_cons, hp]
+  rw [foldl_pushValue_noncalls _ _ _ _ (fun x hx => hall x (List.mem_cons_of_mem _ hx))]
+  have := congrArg (List.map getInner) (zip_flags_fst es)
+  simp only [List.map_map, Function.comp_def] at this
+  simp [this]
 
 /-- the allocation step: "evaluate vs, discard" against `do local _ = vs' end` — the right side allocates a
 cell that nothing on the left corresponds to -/
@@ -234,7 +255,8 @@ theorem lkS_round (s : Stmt) (st : St) (hm : stmtMatched RemoveAssertions.matche
       obtain ⟨e, he, rfl⟩ := List.mem_map.mp hc
       exact noRef_getInner e (noRefEs_mem hargs e (hkeptArgs e he).1)
     · -- every kept argument is a non-call, and there is at least one
-      have hB : ∀ e ∈ preserveArgumentsSideEffects .tuple args, isCall (getInner e) = false := by
+      have hB : ∀ e ∈ preserveArgumentsSideEffects .tuple args,
+          isCall (getInner e) = false ∧ usesDiscard e = false := by
         simp only [stmtOK, Bool.and_eq_true, Bool.or_eq_true] at hok
         rcases hok.2 with h1 | h1
         · exfalso
